@@ -10,7 +10,8 @@
       cannot overflow; their division is [Z.quot] (truncation toward zero).
     - binary32 arithmetic: every operation rounds ([rnd32] of Base/Float32.v, proved equal to Flocq's
       round-to-nearest-even in Proofs/Float32P.v); integer -> float conversions round as well ([i2f32]).
-    - [std::modf]: integer part (as a float) and fractional part (exact: the fraction of a binary32 value is one).
+    - [std::modf]: integer part (as a float) and fractional part (exact: the fraction of a binary32 value is one);
+      [std::floor], [std::trunc] likewise.
     - float -> unsigned conversion: defined for -1 < value < 2^bits only ([fcvt_ok]); [fcvt_val] is the truncated value
       reduced to the width, i.e. what the conversion yields where it is defined.
     - comparisons of floats are comparisons of their exact values.
@@ -31,6 +32,9 @@ Definition f32neg (a : Qc) : Qc := (- a)%Qc.
 
 Definition modf_int (p : Qc) : Qc := Qcz (Qctrunc p).
 Definition modf_frac (p : Qc) : Qc := Qcfrac p.
+(** [std::floor] / [std::trunc] of a float (exact: results are floats) *)
+Definition ffloor (p : Qc) : Qc := Qcz (Qcfloor p).
+Definition ftrunc (p : Qc) : Qc := Qcz (Qctrunc p).
 
 Definition fle (a b : Qc) : bool := Qle_bool (this a) (this b).
 Definition flt (a b : Qc) : bool := negb (Qle_bool (this b) (this a)).
